@@ -22,13 +22,18 @@ cp /tmp/patch_$name.diff /verif/seeded/$name/patch.diff
 cp out/demo.py /verif/seeded/$name/demo.py
 cp out/notes.md /verif/seeded/$name/notes.md 2>/dev/null
 cd /verif
-git -C /repo apply /verif/seeded/$name/patch.diff || { echo "patch does not apply to /repo"; exit 3; }
 export VERIF_EVIDENCE_DIR=/verif/.work/ev
+if [ "${MUT_IN_WORKTREE:-0}" = "1" ]; then
+  # run the checks against the patched scratch worktree (leaves /repo alone, e.g. while a sweep is running)
+  export REPO_ROOT=$wt
+else
+  git -C /repo apply /verif/seeded/$name/patch.diff || { echo "patch does not apply to /repo"; exit 3; }
+fi
 for p in $prop $extra; do
   ./check $p --tier quick > /tmp/check_${name}_$p.log 2>&1
   echo "check $p exit=$? : $(grep -c VIOLATION /tmp/check_${name}_$p.log) violation line(s)"
   grep "VIOLATION" -A1 /tmp/check_${name}_$p.log | head -6
 done
-git -C /repo checkout -- .
+if [ "${MUT_IN_WORKTREE:-0}" != "1" ]; then git -C /repo checkout -- .; fi
 rm -f /verif/replays/*  # replays of mutant runs are not kept
 echo "demo_with=$with demo_without=$without" > /verif/seeded/$name/result.txt
